@@ -64,6 +64,7 @@ Definition default_params_reported := false.
 Definition metadata_json_safe := false.
 Definition pipeline_id_stable := false.
 Definition opaque_raises_before_start := false.
+Definition fresh_nodes_per_run := false.
 Definition gen_facts : facts := mkFacts false false false false false false false false false false false.
 Definition gen_layout : layout := mkLayout [] [] [] [] [].
 Definition gen_schema : schema := mkSchema [] [] [] [] [].
@@ -108,6 +109,53 @@ def _uses_utc(fn, where):
     if len(args) == 1 and args[0] in ("timezone.utc", "datetime.timezone.utc", "UTC", "datetime.UTC", "_dt.timezone.utc"):
         return True
     raise TranslationError("%s: datetime.now(%s): unknown zone argument" % (where, ", ".join(args)))
+
+
+def fresh_nodes_fact(cls, ex):
+    """True iff every execute() builds its own node instances: `nodes, node_defs = self._instantiate_nodes(resolved_spec, logger)`
+    in execute, and _instantiate_nodes is a pure builder (fresh local lists, one _pipeline_node_factory call per node
+    definition in a loop over its argument, no state kept on self, nothing looked up in a table that outlives the call).
+    False iff it consults or fills state that survives the call; anything else fails closed."""
+    inst = [m for m in cls.body if isinstance(m, ast.FunctionDef) and m.name == "_instantiate_nodes"]
+    if len(inst) != 1:
+        raise TranslationError("_instantiate_nodes not found")
+    fn = inst[0]
+    calls = [n for n in ast.walk(ex) if isinstance(n, ast.Assign) and _calls(n, "_instantiate_nodes")]
+    if len(calls) != 1 or ast.unparse(calls[0].targets[0]).strip("()") != "nodes, node_defs" or \
+            not ast.unparse(calls[0].value).startswith("self._instantiate_nodes("):
+        raise TranslationError("execute: nodes are not obtained as `nodes, node_defs = self._instantiate_nodes(...)`")
+    for n in ast.walk(ex):      # the node loop must run over these nodes
+        if isinstance(n, ast.For) and "nodes" in ast.unparse(n.iter) and "enumerate(nodes)" not in ast.unparse(n.iter) \
+                and "zip(" not in ast.unparse(n.iter) and ast.unparse(n.iter) != "nodes":
+            raise TranslationError("execute: unexpected iteration over nodes: " + ast.unparse(n.iter))
+    uses_self = [n for n in ast.walk(fn) if isinstance(n, ast.Attribute) and isinstance(n.value, ast.Name) and n.value.id == "self"]
+    globals_used = [n for n in ast.walk(fn) if isinstance(n, (ast.Global, ast.Nonlocal))]
+    factory = [n for n in ast.walk(fn) if isinstance(n, ast.Call) and ast.unparse(n.func) == "_pipeline_node_factory"]
+    loops = [n for n in fn.body if isinstance(n, ast.For)]
+    arg = fn.args.args[1].arg if len(fn.args.args) > 1 else None
+    shape_ok = (len(factory) == 1 and len(loops) == 1 and ast.unparse(loops[0].iter) == arg and
+                any(isinstance(n, ast.Call) and n is factory[0] for n in ast.walk(loops[0])) and
+                isinstance(fn.body[-1], ast.Return) and ast.unparse(fn.body[-1].value) == "(nodes, node_defs)")
+    if uses_self or globals_used:
+        # state that survives the call is consulted: instances may be shared between runs
+        return False
+    if not shape_ok:
+        raise TranslationError("_instantiate_nodes: unknown shape")
+    # module-level tables consulted by name inside the builder (a cache outside self)
+    def walk_no_annotations(node):
+        for f, v in ast.iter_fields(node):
+            if f in ("annotation", "returns"):
+                continue
+            for c in (v if isinstance(v, list) else [v]):
+                if isinstance(c, ast.AST):
+                    yield c
+                    yield from walk_no_annotations(c)
+    names = {n.id for st in fn.body for n in [st] + list(walk_no_annotations(st)) if isinstance(n, ast.Name) and isinstance(n.ctx, ast.Load)}
+    allowed = {"nodes", "node_defs", "node_def", "params", "nd", "node", "logger", arg, "instantiate_from_descriptor", "dict",
+               "_pipeline_node_factory", "list"}
+    if names - allowed:
+        raise TranslationError("_instantiate_nodes: reads unknown names %s" % sorted(names - allowed))
+    return True
 
 
 def structural():
@@ -232,7 +280,8 @@ def structural():
                 ser_opt.append(s.target.id)
             else:
                 raise TranslationError("SERRecord.%s has a non-None default" % s.target.id)
-    facts = dict(instantiate_inside_try=inside, node_handler_catches_base=node_base, outer_handler_catches_base=outer_base,
+    fresh_nodes = fresh_nodes_fact(cls, ex)
+    facts = dict(fresh_nodes_per_run=fresh_nodes, instantiate_inside_try=inside, node_handler_catches_base=node_base, outer_handler_catches_base=outer_base,
                  handlers_reraise=reraise, ser_in_both_arms=ser_both, end_in_both_arms=end_both, start_before_try=start_before,
                  flush_close_in_finally=fin_flush, iso_now_utc=iso_utc, driver_now_utc=drv_utc, driver_drops_spec=drops)
     layout = dict(start=start_keys, end=end_keys, ser=ser_fields, ser_opt=ser_opt)
@@ -337,7 +386,7 @@ def translate():
     order = ["instantiate_inside_try", "node_handler_catches_base", "outer_handler_catches_base", "handlers_reraise",
              "ser_in_both_arms", "end_in_both_arms", "start_before_try", "flush_close_in_finally", "iso_now_utc",
              "driver_now_utc", "timestamps_use_utc", "driver_drops_spec", "default_params_reported", "metadata_json_safe",
-             "pipeline_id_stable", "opaque_raises_before_start"]
+             "pipeline_id_stable", "opaque_raises_before_start", "fresh_nodes_per_run"]
     lines = ["(* GENERATED by harness/translate/orchestrator.py from %s, %s, %s and trace/schema/*.json -- do not edit." % (ORCH, JSONL, MODEL),
              "   default_params_reported, metadata_json_safe, pipeline_id_stable are PROBED facts (minimal failing inputs run on the implementation). *)",
              "From Coq Require Import List String Bool. Import ListNotations.",
